@@ -501,7 +501,10 @@ def generate_section(section, repo_root, em, res):
                 # (an inline annotation that starts with a closer, e.g. the `}` that ends an inserted closure block, stays behind them)
                 first_tok = next((t_ for t_ in n.toks if t_.kind not in ('ws', 'mark')), None)
                 closes = first_tok is not None and first_tok.kind == 'p' and first_tok.text in ')]}'
-                if nxt is not None and (not n.inline or closes):
+                # ... except in front of a `proof` hint: what a proof block establishes persists, so new statements are better off behind it
+                # (a hoisted expression then still finds the facts it needs); an insertion that opens or closes a block drops the hint instead
+                is_hint = n.label.split()[:1] == ['proof']
+                if nxt is not None and (not n.inline or closes) and not is_hint:
                     emit_pre_a(nxt)
                 if id(n) in dropped_hints:
                     continue
